@@ -166,6 +166,10 @@ def mut_text(m):
         return "ulimit -n " + m[1]
     if m[0] == "X":
         return "exit " + m[1]
+    if m[0] == "R":
+        return "return " + m[1]
+    if m[0] == "C":
+        return "__f"            # defined before the first dump (see script())
     return wrap(m[1], body_text(m[2]))
 
 
@@ -183,9 +187,12 @@ def mut_tok(m):
         return ["L", m[1]]
     if m[0] == "X":
         return ["X", m[1]]
-    n = sum(len(x[2]) if x[0] == "P" else 1 for x in m[2])
-    out = ["S", m[1], str(n)]
-    for x in m[2]:
+    if m[0] == "R":
+        return ["R", m[1]]
+    body = m[1] if m[0] == "C" else m[2]
+    n = sum(len(x[2]) if x[0] == "P" else 1 for x in body)
+    out = ["C", str(n)] if m[0] == "C" else ["S", m[1], str(n)]
+    for x in body:
         out += mut_tok(x)
     return out
 
@@ -197,11 +204,70 @@ def reaches_exit(body):
 
 
 def has(body, kind):
-    return any(m[0] == kind or (m[0] == "S" and has(m[2], kind)) for m in body)
+    return any(m[0] == kind or (m[0] == "S" and has(m[2], kind)) or (m[0] == "C" and has(m[1], kind)) for m in body)
 
 
-def script(top):
-    return PRELUDE + "echo @@BEFORE\n__dump \"$@\"\necho @@MID\n" + mut_text(top) + "\necho @@AFTER\n__dump \"$@\"\necho @@END\n"
+# ---- options that decide where a pipeline stage runs
+OPTSETS = ["", "p", "l", "m", "pl", "lm", "pm", "plm"]
+OPT_TEXT = {"p": "set -o pipefail", "l": "shopt -s lastpipe", "m": "set -m"}
+
+
+def opts_text(opts):
+    return "".join(OPT_TEXT[o] + "\n" for o in opts)
+
+
+def is_subshell(opts, c):
+    """bash: the last stage of a pipeline runs in the current shell iff lastpipe is set and job control is not active;
+    every other context is always a subshell (Coq: Subshell.Model.is_subshell)"""
+    return not (c == "pipelast" and "l" in opts and "m" not in opts)
+
+
+def spec_run(opts, body, cur, acc):
+    """reference semantics of the grammar (independent of the Coq model): which dump sections the PARENT sees changed,
+    which umask / nofile it ends with, and the control flow (go / exit / return) that reaches it"""
+    for m in body:
+        k = m[0]
+        if k == "F" and cur:
+            acc["sections"].add(m[1])
+        elif k == "P" and cur:
+            acc["sections"].update(m[2])
+        elif k == "U" and cur:
+            acc["umask"] = str(int(m[1], 8))
+        elif k == "L" and cur:
+            acc["nofile"] = m[1]
+        elif k == "X":
+            return "exit"
+        elif k == "R":
+            return "return"
+        elif k == "C":
+            if spec_run(opts, m[1], cur, acc) == "exit":
+                return "exit"
+        elif k == "S":
+            if is_subshell(opts, m[1]):
+                spec_run(opts, m[2], False, acc)       # nothing but status and output comes back
+            else:
+                f = spec_run(opts, m[2], cur, acc)     # a brace group in the current shell
+                if f != "go":
+                    return f
+    return "go"
+
+
+def no_args(body):
+    # `declare` inside a function makes a local, `set --`/`shift` change the function's own parameters
+    out = [("S", m[1], no_args(m[2])) if m[0] == "S" else m for m in body
+           if not (m[0] == "F" and (m[1] == "args" or m[2].startswith("declare ")))]
+    return out or [("F", "env", "v1=new", "v1")]
+
+
+def top_nodes(kind, body):
+    return body if kind == "cur" else [("C", body)] if kind == "call" else [("S", kind, body)]
+
+
+def script(opts, kind, body):
+    fdef = "__f() {\n%s\n}\n" % body_text(body) if kind == "call" else ""
+    main = wrap("cur", body_text(body)) if kind == "cur" else "__f" if kind == "call" else mut_text(("S", kind, body))
+    return (PRELUDE + opts_text(opts) + fdef + "echo @@BEFORE\n__dump \"$@\"\necho @@MID\n" + main +
+            "\necho @@AFTER\n__dump \"$@\"\necho @@END\n")
 
 
 def parse_dump(text):
@@ -254,55 +320,99 @@ def observe(d):
 
 
 def gen_cases(ctx):
+    """-> list of (opts, kind, body); kind = 'cur' | 'call' | a subshell context"""
     rng = ctx.rng
     cases = []
     # sanity of the dump: every mutator, run in the current shell, changes its section
     for f in MUTS:
         for t, tag in MUTS[f]:
-            cases.append(("cur", [("F", f, t, tag)]))
-    cases.append(("cur", [("P", "pushd /usr >/dev/null", ["working_dir", "directory_stack"])]))
-    cases.append(("cur", [("U", "027")]))
-    cases.append(("cur", [("L", "128")]))
+            cases.append(("", "cur", [("F", f, t, tag)]))
+    cases.append(("", "cur", [("P", "pushd /usr >/dev/null", ["working_dir", "directory_stack"])]))
+    cases.append(("", "cur", [("U", "027")]))
+    cases.append(("", "cur", [("L", "128")]))
     # every mutator alone in every context
     singles = [("F", f, t, tag) for f in MUTS for t, tag in MUTS[f]] + [("U", "077"), ("L", "64"), ("X", "3"),
               ("P", "pushd /usr >/dev/null", ["working_dir", "directory_stack"])]
     for c in CTXS:
         for m in singles:
-            cases.append((c, [m]))
-    # random sequences in every context
+            cases.append(("", c, [m]))
+    # option prefixes x stage position x mutators (exit and return included)
+    marker = ("F", "env", "v1=new", "v1")
+    for opts in OPTSETS[1:]:
+        for c in ("pipefirst", "pipelast"):
+            for m in singles:
+                cases.append((opts, c, [m]))
+    for opts in OPTSETS:
+        for c in ("pipefirst", "pipelast"):
+            for flow in (("R", "7"), ("X", "3"), ("R", "0")):
+                cases.append((opts, "call", [("S", c, [flow]), marker]))
+                cases.append((opts, "call", [("S", c, [("F", "traps", "trap 'echo u1' USR1", "u1"), flow, marker])]))
+    # random sequences in every context, under random options
     for _ in range(260 if ctx.quick else 4000):
-        c = rng.choice(CTXS)
-        cases.append((c, gen_body(rng, 0, c != "backquote")))
+        c = rng.choice(CTXS + ["pipefirst", "pipelast", "call"])
+        opts = rng.choice(OPTSETS) if rng.random() < 0.6 else ""
+        body = gen_body(rng, 0, c != "backquote")
+        if c == "call":
+            body = no_args(body)     # only mutators whose effect outlives the function
+        if c == "call" and rng.random() < 0.5:
+            body.insert(rng.randrange(0, len(body) + 1), ("S", rng.choice(["pipefirst", "pipelast", "paren"]), [("R", "5")]))
+        cases.append((opts, c, body))
     return cases
 
 
 def run_cases(ctx, cases):
-    tops = [("S", c, b) if c != "cur" else None for c, b in cases]
-    texts = [script(t) if t else PRELUDE + "echo @@BEFORE\n__dump \"$@\"\necho @@MID\n" + wrap("cur", body_text(b)) +
-             "\necho @@AFTER\n__dump \"$@\"\necho @@END\n" for t, (c, b) in zip(tops, cases)]
+    texts = [script(o, k, b) for o, k, b in cases]
     with concurrent.futures.ThreadPoolExecutor(max_workers=8) as ex:
         res = list(ex.map(lambda t: run_one(ctx.vbrush, t), texts))
     return texts, res
 
 
-def check_case(c, body, d):
-    """the property on the code's own dumps: a subshell context changes nothing in the parent"""
+def check_case(opts, kind, body, d):
+    """the property on the code's own dumps: the parent's dump changes exactly where the reference semantics says a
+    mutator ran in the current shell; nothing done in a subshell shows"""
     out = []
-    if c == "cur":
+    if kind == "cur":
         return out
     b, a = d
+    acc = {"sections": set(), "umask": None, "nofile": None}
+    spec_run(opts, top_nodes(kind, body), True, acc)
+    where = "a %s subshell" % kind if kind not in ("call",) and is_subshell(opts, kind) else \
+        "a function call" if kind == "call" else "the last stage under lastpipe (current shell)"
+    where += " [%s]" % (opts_text(opts).replace("\n", "; ").strip() or "no options")
     for s in sorted(set(b) | set(a)):
-        if s == "open_files" and c == "coproc":
+        if s == "open_files" and kind == "coproc":
             continue   # the coprocess' pipe ends are opened in the parent (COPROC array), as in bash
-        if b.get(s) != a.get(s):
-            kn = None
-            if s == "umask" and has(body, "U"):
-                kn = "KF-C12-umask"
-            if s in ("nofile", "ulimit") and has(body, "L"):
-                kn = "KF-C12-ulimit"
-            diff = [l for l in a.get(s, []) if l not in b.get(s, [])][:3] + ["<"] + [l for l in b.get(s, []) if l not in a.get(s, [])][:3]
-            out.append(("the parent's %s differs after a %s subshell: %s" % (s, c, diff), kn))
+        changed = b.get(s) != a.get(s)
+        diff = [l for l in a.get(s, []) if l not in b.get(s, [])][:3] + ["<"] + [l for l in b.get(s, []) if l not in a.get(s, [])][:3]
+        if s in SECTIONS:
+            if changed and s not in acc["sections"]:
+                out.append(("the parent's %s differs after %s: %s" % (s, where, diff), None))
+            elif not changed and s in acc["sections"]:
+                out.append(("the parent's %s is unchanged although a mutator of it ran in the current shell (%s)" % (s, where), None))
+        elif s == "umask":
+            want = acc["umask"]
+            got = str(int((a.get("umask") or ["0"])[0], 8))
+            before = str(int((b.get("umask") or ["0"])[0], 8))
+            if got != (want if want is not None else before):
+                out.append(("the parent's umask is %s after %s, expected %s: %s" % (got, where, want or before, diff),
+                            "KF-C12-umask" if has(body, "U") else None))
+        elif s == "nofile":
+            want = acc["nofile"]
+            got, before = (a.get(s) or ["?"])[0], (b.get(s) or ["?"])[0]
+            if got != (want if want is not None else before):
+                out.append(("the parent's open-file limit is %s after %s, expected %s" % (got, where, want or before),
+                            "KF-C12-ulimit" if has(body, "L") else None))
+        elif s == "ulimit":
+            if changed and not has(body, "L"):
+                out.append(("the parent's ulimit -a differs after %s: %s" % (where, diff), None))
     return out
+
+
+def case_tokens(opts, kind, body, u0, n0):
+    toks = []
+    for m in top_nodes(kind, body):
+        toks += mut_tok(m)
+    return [u0, n0, opts or "-"] + toks
 
 
 def run(ctx):
@@ -310,31 +420,27 @@ def run(ctx):
     texts, res = run_cases(ctx, cases)
     mism, specv = [], []
     model_cases, obs = [], []
-    for (c, body), (d, err), text in zip(cases, res, texts):
+    for (opts, kind, body), (d, err), text in zip(cases, res, texts):
         if d is None and err.startswith("exited"):
-            kn = "KF-C12-exit-last-stage" if c == "pipelast" and reaches_exit(body) else None
-            v = {"input": {"script": text[len(PRELUDE):]}, "why": "the parent shell itself exited (%s) inside a %s subshell context" % (err, c)}
-            if kn:
-                v["known"] = kn
-            specv.append(v)
-            model_cases.append(["18", "0"] + mut_tok(("S", c, body)) if c != "cur" else None); obs.append(["exited"])
+            legit = kind != "cur" and spec_run(opts, top_nodes(kind, body), True, {"sections": set(), "umask": None, "nofile": None}) == "exit"
+            if not legit:
+                specv.append({"input": {"script": text[len(PRELUDE):]},
+                              "why": "the parent shell itself exited (%s) although every `exit` of the program is inside a subshell (%s context)" % (err, kind)})
+            model_cases.append(case_tokens(opts, kind, body, "18", "0")); obs.append(["exited"])
             continue
         if d is None:
             specv.append({"input": {"script": text[len(PRELUDE):]}, "why": "no dump: %s" % err})
             model_cases.append(None); obs.append(None)
             continue
+        if kind != "cur" and spec_run(opts, top_nodes(kind, body), True, {"sections": set(), "umask": None, "nofile": None}) == "exit":
+            specv.append({"input": {"script": text[len(PRELUDE):]},
+                          "why": "the parent shell survived an `exit` executed in the current shell (%s context)" % kind})
         u0 = str(int((d[0].get("umask") or ["0"])[0], 8))
         n0 = (d[0].get("nofile") or ["0"])[0]
         n0 = "-1" if n0 == "unlimited" else n0
-        toks = []
-        if c == "cur":
-            for m in body:
-                toks += mut_tok(m)
-        else:
-            toks = mut_tok(("S", c, body))
-        model_cases.append([u0, n0] + toks)
+        model_cases.append(case_tokens(opts, kind, body, u0, n0))
         obs.append(observe(d))
-        for why, kn in check_case(c, body, d):
+        for why, kn in check_case(opts, kind, body, d):
             v = {"input": {"script": text[len(PRELUDE):]}, "why": why}
             if kn:
                 v["known"] = kn
@@ -344,11 +450,11 @@ def run(ctx):
     for i, ml in zip(idx, model):
         got = core.dec_line(ml)
         exp = obs[i]
-        c, body = cases[i]
-        if c == "coproc":
+        opts, c, body = cases[i]
+        if c == "coproc" and got != ["exited"]:
             got = [g if SECTIONS[k] != "open_files" else exp[k] for k, g in enumerate(got[:len(SECTIONS)])] + got[len(SECTIONS):]
         if got != exp:
-            mism.append({"context": c, "script": texts[i][len(PRELUDE):], "sections": SECTIONS + ["umask", "nofile"],
+            mism.append({"options": opts, "context": c, "script": texts[i][len(PRELUDE):], "sections": SECTIONS + ["umask", "nofile"],
                          "code": exp, "model": got})
     # extraction cross-check
     samp = ctx.rng.sample(idx, min(30, len(idx)))
@@ -360,7 +466,7 @@ def run(ctx):
     # concurrent parent activity (sampled)
     conc = concurrent_cases(ctx)
     specv += conc["violations"]
-    ser = serde_view(ctx, cases)
+    ser = serde_view(ctx, [(k, b) for o, k, b in cases if o == "" and k != "call" and not has(b, "R")])
     specv += ser["violations"]
     seen, outv = {}, []
     for v in specv:
@@ -369,9 +475,10 @@ def run(ctx):
         if seen[key] <= (1 if v.get("known") else 3):
             outv.append(v)
     dist = {}
-    for c, body in cases:
+    for o, c, body in cases:
         dist[c] = dist.get(c, 0) + 1
-    nontriv = {repr(x) for x in cases if x[0] != "cur"}
+        dist["opts:" + (o or "none")] = dist.get("opts:" + (o or "none"), 0) + 1
+    nontriv = {repr(x) for x in cases if x[1] != "cur"}
     return {
         "evaluations": len(cases) + conc["n"] + ser["n"],
         "distinct_nontrivial": len(nontriv),
@@ -379,8 +486,10 @@ def run(ctx):
                 "last pipeline stage, `&`+wait, <( ), coproc) every single mutator of the grammar, plus random mutator sequences "
                 "(1-5 items, nested subshells to depth 2, exit); the parent's full textual dump before and after is compared "
                 "section by section; the same mutators in the current shell check that the dump sees each of them; plus "
-                "background jobs racing parent mutators. non-trivial = any case in a subshell context; distinct by (context, body)",
-        "samples": [{"context": cases[-1][0], "script": texts[-1][len(PRELUDE):]}, {"context": cases[40][0], "script": texts[40][len(PRELUDE):]}],
+                "background jobs racing parent mutators; plus option prefixes {pipefail, lastpipe, set -m and all combinations} x "
+                "{non-final, final} pipeline stage x every mutator, and exit/return in a stage of a pipeline inside a function "
+                "(under lastpipe without job control the final stage is expected to run in the current shell). non-trivial = any case in a subshell context; distinct by (context, body)",
+        "samples": [{"context": cases[-1][1], "script": texts[-1][len(PRELUDE):]}, {"context": cases[40][1], "script": texts[40][len(PRELUDE):]}],
         "distribution": dist,
         "extraction_crosscheck": {"cases": len(samp), "agree": len(samp) - len(xbad)},
         "model_mismatches": mism,
@@ -420,16 +529,17 @@ def concurrent_cases(ctx):
 def search(ctx, res):
     import random
     rng = random.Random(ctx.seed + 3)
-    cases = []
-    for _ in range(1500):
-        c = rng.choice(CTXS)
-        cases.append((c, gen_body(rng, 0, c != "backquote")))
+
+    class C:
+        pass
+    c2 = C(); c2.rng = rng; c2.quick = False
+    cases = gen_cases(c2)[:2500]
     texts, rs = run_cases(ctx, cases)
     specv = []
-    for (c, body), (d, err), text in zip(cases, rs, texts):
+    for (opts, kind, body), (d, err), text in zip(cases, rs, texts):
         if d is None:
             continue
-        for why, kn in check_case(c, body, d):
+        for why, kn in check_case(opts, kind, body, d):
             if not kn:
                 specv.append({"input": {"script": text[len(PRELUDE):]}, "why": why})
     specv.sort(key=lambda v: len(v["input"]["script"]))
